@@ -2,6 +2,7 @@
 package gen2
 
 import (
+	"reflect"
 	"fmt"
 	"math/rand"
 	"sort"
@@ -281,7 +282,7 @@ func codecLevel(run *ev.Run, set *bridge.Set, rng *rand.Rand, perType int) {
 					}
 				}
 				// ---- reader side
-				for _, rf := range []string{"json", "ror2", "untyped", "json+nulls", "untyped+nulls"} {
+				for _, rf := range []string{"json", "ror2", "untyped", "json+nulls", "untyped+nulls", "json-in-envelope", "untyped-in-envelope"} {
 					for _, pruned := range []bool{false, true} {
 						src := v
 						if pruned {
@@ -296,7 +297,16 @@ func codecLevel(run *ev.Run, set *bridge.Set, rng *rand.Rand, perType int) {
 						}
 						var r restlicodec.Reader
 						var doc string
+						inEnvelope := strings.HasSuffix(rf, "-in-envelope")
 						switch strings.TrimSuffix(rf, "+nulls") {
+						case "json-in-envelope":
+							// the entity of a batch_create: {"elements":[entity]}, the spec applies below the two envelope levels
+							doc = refcodec.TreeJSON(map[string]any{"elements": []any{tree}}, rng)
+							r, err = restlicodec.NewJsonReaderWithExcludedFields([]byte(doc), ps, 2)
+						case "untyped-in-envelope":
+							wrapped := map[string]any{"elements": []any{tree}}
+							doc = fmt.Sprint(wrapped)
+							r = restlicodec.NewInterfaceReaderWithExcludedFields(wrapped, ps, 2)
 						case "json":
 							doc = refcodec.TreeJSON(tree, rng)
 							r, err = restlicodec.NewJsonReaderWithExcludedFields([]byte(doc), ps, 0)
@@ -313,7 +323,12 @@ func codecLevel(run *ev.Run, set *bridge.Set, rng *rand.Rand, perType int) {
 						run.Eval(1)
 						run.Count("reader_cases", 1)
 						q := set.New(full)
-						_, derr := codec.DecodeWith(r, q)
+						var derr error
+						if inEnvelope {
+							derr = decodeInEnvelope(r, q)
+						} else {
+							_, derr = codec.DecodeWith(r, q)
+						}
 						rd := map[string]any{"generation": GENERATION, "set": set.Name, "type": full, "spec": texts, "reader": rf, "document": trunc(doc), "document_carries_excluded_value": carries && !pruned}
 						_, isExcl := derr.(restlicodec.ExcludedFieldError)
 						if derr != nil {
@@ -352,6 +367,25 @@ func codecLevel(run *ev.Run, set *bridge.Set, rng *rand.Rand, perType int) {
 			}
 		}
 	}
+}
+
+// decodeInEnvelope reads {"elements":[entity]} the way the batch_create adapter does.
+func decodeInEnvelope(r restlicodec.Reader, ptr reflect.Value) (err error) {
+	defer func() {
+		if p := recover(); p != nil {
+			err = &codec.PanicError{Value: fmt.Sprint(p)}
+		}
+	}()
+	u, ok := ptr.Interface().(restlicodec.Unmarshaler)
+	if !ok {
+		return fmt.Errorf("%s is not an Unmarshaler", ptr.Type())
+	}
+	return r.ReadRecord(requiredElements, func(r restlicodec.Reader, field string) error {
+		if field == "elements" {
+			return r.ReadArray(func(r restlicodec.Reader) error { return u.UnmarshalRestLi(r) })
+		}
+		return r.Skip()
+	})
 }
 
 func isPanic(err error) bool { _, ok := err.(*codec.PanicError); return ok }
